@@ -254,7 +254,7 @@ func init() {
 
 	// ---------------- C12: a change is never lost to a transient failure
 	allFaults := []string{"disk.write_fail", "disk.write_torn", "disk.enospc", "disk.read_fail", "sock.dial_refused", "sock.write_fail", "sock.read_timeout",
-		"sock.reset_before_exec", "sock.reset_after_exec", "sock.nonok_reply", "sock.garbage_reply", "haproxy.reload_fail", "haproxy.reload_slow", "kube.read_error"}
+		"sock.reset_before_exec", "sock.reset_after_exec", "sock.nonok_reply", "sock.garbage_reply", "haproxy.reload_fail", "haproxy.reload_slow"}
 	register(&Profile{Name: "faults", Prop: "C12", Weight: 1,
 		Oracles: OracleSet{Property: "C12", Converge: true},
 		Build: func(seed uint64, tier string) *RunConfig {
@@ -265,8 +265,17 @@ func init() {
 			rc := &RunConfig{Property: "C12", Profile: "faults", Seed: seed, Ctl: ctl, MapOrder: r.IntN(2) == 0, Lagfree: r.IntN(2) == 0, MidSched: r.IntN(2) == 0}
 			rc.Faults = map[string]int{}
 			n := 1 + r.IntN(3)
+			pool := allFaults
+			if _, avoid := avoidFlags(); avoid["no_disk_write_faults"] {
+				pool = nil
+				for _, f := range allFaults {
+					if !strings.HasPrefix(f, "disk.write") && f != "disk.enospc" {
+						pool = append(pool, f)
+					}
+				}
+			}
 			for i := 0; i < n; i++ {
-				rc.Faults[allFaults[r.IntN(len(allFaults))]] = pickInt(r, 20, 50, 150, 400)
+				rc.Faults[pool[r.IntN(len(pool))]] = pickInt(r, 20, 50, 150, 400)
 			}
 			rc.MaxFaults = 1 + r.IntN(6)
 			rc.World, rc.Ops = GenerateRun(seed, GenOptions{Sparse: r.IntN(3) == 0, ExcludeIngressKeys: alwaysExcludedIngressKeys, MinOps: mn, MaxOps: mx,
